@@ -189,6 +189,10 @@ def kind_specific(version, slot, v, m):
         out += [("number-for-string", 12345), ("bool-for-string", True)]
         if k == "pattern":
             out += [("pattern:garbage", "this is not a pattern"), ("pattern:unbalanced", "[file:name = 'x'"), ("pattern:empty-brackets", "[]")]
+            if version == "2.1":
+                # valid under the 2.0 grammar only (a qualifier given twice)
+                out += [("pattern:2.0-grammar-only", "[file:name = 'a'] WITHIN 5 SECONDS WITHIN 6 SECONDS"),
+                        ("pattern:2.0-grammar-only", "[file:name = 'a'] REPEATS 2 TIMES REPEATS 3 TIMES")]
     elif k == "fixed":
         out += [("fixed:other-value", "something-else"), ("fixed:wrong-case", str(v).upper()), ("fixed:trailing-newline", str(v) + "\n")]
     return out
